@@ -80,7 +80,7 @@ def cases(tier, seed):
             out.append({"mode": "walk", "subject": sub, "steps": (steps_mod // 2 if heavy and tier != "quick" else steps_mod),
                         "seed": int(rng.integers(1 << 30))})
         for sub in network_subjects():
-            heavy = sub.get("obs") in ("image", "dict", "tuple", "resnet")
+            heavy = sub.get("obs") in ("image", "dict", "tuple", "resnet", "image_cfg")
             out.append({"mode": "walk", "subject": sub, "steps": (steps_net // 2 if heavy else steps_net),
                         "seed": int(rng.integers(1 << 30))})
     return out
@@ -259,8 +259,22 @@ def monitor_clone(sink: Sink, subject, parent, child, tally, step_seed):
         if not aw.same_bits(a, b):
             la, lb = aw.leaves(parent), aw.leaves(child)
             bad = [k for k in la if k not in lb or la[k].shape != lb[k].shape or not aw.same_bits(la[k].detach(), lb[k].detach())]
-            sink.violate("clone_outputs", f"clone_{mode}_output_differs", type(parent).__name__, max_abs_diff=aw.max_abs_diff(a, b),
-                         differing_leaves=bad[:6], subject=subject.spec)
+            fields = []
+            try:
+                fa, fb = aw.flat_state(parent)[0], aw.flat_state(child)[0]
+                fields = sorted(k for k in set(fa) | set(fb) if fa.get(k) != fb.get(k))
+            except Exception as exc:
+                aw.reraise_watchdog(exc)
+            if bad:
+                kind, site = f"clone_{mode}_output_differs_leaves_differ", type(parent).__name__
+            elif fields:
+                # same tensors, other constructor description: the clone was built as a different architecture
+                kind, site = f"clone_{mode}_output_differs_description_differs", "+".join(f.split(aw.SEP)[-1] for f in fields[:3])
+            else:
+                kind, site = f"clone_{mode}_output_differs_leaves_and_description_equal", type(parent).__name__
+            sink.violate("clone_outputs", kind, site, max_abs_diff=aw.max_abs_diff(a, b), differing_leaves=bad[:6],
+                         differing_description={k: [fa.get(k), fb.get(k)] for k in fields[:4]} if fields else {},
+                         network=type(parent).__name__, subject=subject.spec)
             return
 
 
@@ -373,6 +387,7 @@ def run_case(case):
         stats = aw.random_walk(subject, case["steps"], case["seed"], on_edge, prepare=prepare, on_clone=on_clone,
                                on_edge_b=on_edge_b, on_state=on_state)
         rec.hit("walk_steps", stats["steps"])
+        rec.hit("star_edges_from_initial_configuration", stats["star_edges"])
         rec.hit("walk_distinct_architectures", stats["distinct_states"])
         rec.extra["walk"] = {"methods": stats["methods"], "aborted": stats["aborted"]}
     rec.hit("edges_architecture_changed", tally.get("changed", 0))
